@@ -4,7 +4,11 @@ import json, os, shutil, sys
 ID, k, caught = sys.argv[1], sys.argv[2], sys.argv[3] == "true"
 detail = " ".join(sys.argv[4:])
 src = f"/tmp/wt/{ID}/out/m{k}"
-dst = f"/verif/seeded/{ID}-m{k}"
+# later rounds are stored under the next free number
+n = int(k)
+while os.path.exists(f"/verif/seeded/{ID}-m{n}"):
+    n += 1
+dst = f"/verif/seeded/{ID}-m{n}"
 os.makedirs(dst, exist_ok=True)
 shutil.copy(f"{src}/patch.diff", f"{dst}/patch.diff")
 shutil.copy(f"{src}/demo.rs", f"{dst}/demo.rs")
@@ -14,6 +18,6 @@ meta["independently_confirmed"] = {
     "how": "tools/confirm.sh in a scratch worktree: full `cargo test --workspace --no-fail-fast --offline` with the change applied, then the demonstration with and without it",
     "suite_rc_with_change": conf["suite_rc_with_mutant"], "demo_rc_with_change": conf["demo_rc_with_mutant"], "demo_rc_without": conf["demo_rc_without"],
 }
-meta["check_run"] = {"command": f"tools/seedtest.sh {ID} seeded/{ID}-m{k}/patch.diff", "caught": caught, "detail": detail}
+meta["check_run"] = {"command": f"tools/seedtest.sh {ID} /verif/seeded/{ID}-m{n}/patch.diff", "caught": caught, "detail": detail}
 json.dump(meta, open(f"{dst}/meta.json", "w"), indent=1)
 print("imported", dst)
